@@ -1,12 +1,21 @@
 ---------------------------- MODULE TestCasesTrace ----------------------------
 (* Judges one recorded event per decoder test case really produced by                       *)
 (* DECODER_TEST_CASE_GENERATOR_REGISTRY for a configuration (property C05).                 *)
-(*   cfg   profile, lossless, fragments, fields             start of a configuration        *)
+(*   cfg   start of a configuration: profile, lossless, fragments, fields and the CONCRETE   *)
+(*         projections asym (dwt_depth_ho > 0 or wavelet_index_ho # wavelet_index), customqm,  *)
+(*         hasdefault (a default quantisation matrix exists for the transform), rng (<<luma    *)
+(*         offset, luma excursion, colour difference offset, excursion>>), ny (luma            *)
+(*         coefficients of the largest slice), cdf (colour difference format index); TLC       *)
+(*         classifies them (AbstractOf) and compares with decl, the abstract configuration     *)
+(*         of TestCases.tla the driver instantiated                                            *)
+(*   gen   fam, raised, n: one call of a registered generator (raised an exception / number    *)
+(*         of test cases it returned)                                                          *)
 (*   case  fam, sub (name parts), name, accepted (validator verdict on the serialised       *)
 (*         stream), params (decoded video parameters and picture coding mode = configured), *)
 (*         n (decoded pictures), numbers (limbs), grey (every decoded sample = 2^(depth-1)),*)
 (*         eq: [ss1, ss2, mg1, mg2, mg1mg1 |-> decoded pictures equal to the decode of the  *)
 (*         plain encoding of static_sprite x1 / x2, mid_gray x1 / x2, mid_gray ++ mid_gray] *)
+(*         ver: major_version the test case's first sequence header declares                *)
 (* Alarm clauses = the statement of C05; catalogue mismatches are non-alarm.                *)
 EXTENDS TestCasesOps, Json, IOUtils, TLC, TLCExt
 
@@ -37,17 +46,39 @@ Clause(e) ==
   ELSE IF ~SubOk(e)                              THEN [c |-> "UnknownSubCase", alarm |-> FALSE]
   ELSE IF Omitted(cfg, e.fam)                    THEN [c |-> "ShouldBeOmitted", alarm |-> FALSE]
   ELSE IF ExpectedPictures(cfg, e.fam) # 0 /\ e.n # ExpectedPictures(cfg, e.fam) THEN [c |-> "PictureCount", alarm |-> FALSE]
+  \* every family but the one that re-encodes the source parameters declares the lowest sufficient version
+  ELSE IF ~Open(e.fam) /\ e.ver # MinVersion(cfg)    THEN [c |-> "VersionNotMinimal", alarm |-> FALSE]
   ELSE [c |-> "ok", alarm |-> FALSE]
 
-TraceInit == l = 1 /\ cfg = [profile |-> "none", lossless |-> FALSE, fragments |-> FALSE, fields |-> FALSE] /\ names = {} /\ bad = <<>>
+(* a generator call on a valid configuration: the statement promises test cases that serialise to    *)
+(* conformant streams, so a generator that raises instead of producing them violates it               *)
+GenClause(e) ==
+  IF e.raised                                       THEN [c |-> "GeneratorRaises", alarm |-> TRUE]
+  ELSE IF e.fam \notin Families                     THEN [c |-> "UnknownFamily", alarm |-> FALSE]
+  ELSE IF e.n > 0 /\ Omitted(cfg, e.fam)            THEN [c |-> "ShouldBeOmitted", alarm |-> FALSE]
+  ELSE [c |-> "ok", alarm |-> FALSE]
+
+AbstractOf(e) == [profile |-> e.profile, lossless |-> e.lossless, fragments |-> e.fragments, fields |-> e.fields,
+                  asym |-> e.asym, qm |-> QmClassOf(e.customqm, e.hasdefault), range |-> RangeClassOf(e.rng),
+                  slice |-> SliceClassOf(e.ny), chroma |-> ChromaOf(e.cdf)]
+NoCfg == [profile |-> "none", lossless |-> FALSE, fragments |-> FALSE, fields |-> FALSE,
+          asym |-> FALSE, qm |-> "default", range |-> "preset_v2", slice |-> "small", chroma |-> "444"]
+
+TraceInit == l = 1 /\ cfg = NoCfg /\ names = {} /\ bad = <<>>
 
 TraceNext ==
   /\ l <= Len(Log)
   /\ l' = l + 1
   /\ LET e == Log[l] IN
      IF e.ev = "cfg"
-     THEN /\ cfg' = [profile |-> e.profile, lossless |-> e.lossless, fragments |-> e.fragments, fields |-> e.fields]
-          /\ names' = {} /\ UNCHANGED bad
+     THEN /\ cfg' = AbstractOf(e)
+          /\ names' = {}
+          /\ bad' = IF AbstractOf(e) = e.decl THEN bad
+                    ELSE Append(bad, [tid |-> e.tid, line |-> l, clause |-> "ClassMismatch", alarm |-> FALSE])
+     ELSE IF e.ev = "gen"
+     THEN /\ UNCHANGED <<cfg, names>>
+          /\ LET c == GenClause(e) IN
+             bad' = IF c.c = "ok" THEN bad ELSE Append(bad, [tid |-> e.tid, line |-> l, clause |-> c.c, alarm |-> c.alarm])
      ELSE /\ UNCHANGED cfg
           /\ names' = names \cup {e.name}
           /\ LET c == Clause(e) IN
